@@ -1,10 +1,19 @@
 #!/bin/sh
-# Independent re-check (coqchk) of ALL compiled property files and everything they depend on, in one invocation.
-# Writes the context summary (axioms, type-in-type, unsafe fixpoints, assumed positivity) to coqchk_summary.txt .
+# Independent re-check (coqchk) of every compiled property file and everything it depends on.
+# One coqchk per property file (a single invocation over all of them did not finish in 4 h), JOBS in parallel (each needs up to ~4 GB);
+# the context summary of each (axioms, type-in-type, unsafe fixpoints, assumed positivity) goes to coqchk_summary.txt .
+# usage: harness/coqchk_all.sh [JOBS=6] [per-file timeout in s = 10800]
 cd "$(dirname "$0")/../coq" || exit 2
-mods=$(ls Properties/*.vo | sed 's#Properties/\(.*\)\.vo#SSP.Properties.\1#' | tr '\n' ' ')
-timeout 14400 coqchk -Q . SSP -o $mods > /tmp/coqchk_all.$$ 2>&1; rc=$?
-{ echo "coqchk exit code: $rc"; echo "modules: $mods"; grep -n "Modules were successfully checked" /tmp/coqchk_all.$$; awk '/CONTEXT SUMMARY/{f=1} f' /tmp/coqchk_all.$$ | grep -v "Int63\|PrimFloat\|Uint63"; } > ../coqchk_summary.txt
-rm -f /tmp/coqchk_all.$$
-cat ../coqchk_summary.txt
-exit $rc
+jobs=${1:-6}; tmo=${2:-10800}
+out=$(mktemp -d)
+ls Properties/*.vo | sed 's#Properties/\(.*\)\.vo#\1#' | xargs -P "$jobs" -I{} sh -c \
+  "timeout $tmo coqchk -Q . SSP -o SSP.Properties.{} > $out/{}.log 2>&1; echo \$? > $out/{}.rc"
+{ echo "coqchk per property file (Coq 8.16.1), $(date -u +%Y-%m-%dT%H:%MZ)"; fail=0
+  for f in Properties/*.vo; do m=$(basename $f .vo); rc=$(cat $out/$m.rc 2>/dev/null || echo missing)
+    ok=$(grep -c "Modules were successfully checked" $out/$m.log 2>/dev/null)
+    echo "== $m: exit $rc, 'Modules were successfully checked': $ok"
+    [ "$rc" = 0 ] && [ "$ok" = 1 ] || fail=1
+    awk '/CONTEXT SUMMARY/{f=1} f' $out/$m.log | grep -v "Int63\|PrimFloat\|Uint63\|^$" | sed 's/^/   /'
+  done; echo "overall: $([ $fail = 0 ] && echo all accepted || echo SOME NOT ACCEPTED)"; } > ../coqchk_summary.txt
+rm -rf "$out"
+tail -3 ../coqchk_summary.txt
